@@ -32,6 +32,7 @@ def main():
     checks = opts.get("checks", pid).split(",")
     patch = os.path.join(src, "change%s.diff" % n)
     demo = os.path.join(src, "demo%s_test.go" % n)
+    n = opts.get("as", n)  # id suffix under which the seed is recorded
     first = open(demo).readline()
     m = re.match(r"//\s*place in:\s*([^\s;(]+)[^;]*;\s*run:\s*(.*)$", first)
     if not m:
@@ -60,7 +61,7 @@ def main():
     dst = os.path.join(wt, pkgdir, "zz_seed_demo_test.go")
     shutil.copy(demo, dst)
     modroot = wt
-    if pkgdir.startswith("exp") and not runcmd.lstrip().startswith("(cd exp"):
+    if pkgdir.startswith("exp") and not (runcmd.lstrip().startswith("(cd exp") or runcmd.lstrip().startswith("cd exp")):
         modroot = os.path.join(wt, "exp")
         runcmd = runcmd.replace("./exp/", "./")
     rc1, out1 = sh(runcmd if "go test" in runcmd else "go test " + runcmd, cwd=modroot, timeout=900)
